@@ -135,15 +135,15 @@ def run(eng, rep, tier):
               "to_networkx writes epsilon as %s, to_symbol accepts %s" % (eps_written, sorted(accepted)), None,
               site=site_of(prog, w, w.node))
     pw, pr = prog.method("PDA", "to_networkx"), prog.method("PDA", "from_networkx")
-    hid_w = [c for c in consts(K(pw)) if c.isupper() and "_" in c]
-    hid_r = [c for c in consts(K(pr)) if c.isupper() and "_" in c]
+    hid_w = sorted({c for fn_ in code_nodes(prog, pw) for c in consts(fn_) if c.isupper() and "_" in c})
+    hid_r = sorted({c for fn_ in code_nodes(prog, pr) for c in consts(fn_) if c.isupper() and "_" in c})
     ob.decide("R7", "C20.1", pr, "hidden-stack-node-name-agrees", bool(hid_w) and set(hid_w) == set(hid_r),
               "writer and reader use the same hidden start-stack node name",
               "hidden start-stack node: written %s, read %s" % (hid_w, hid_r), None, site=site_of(prog, pr, pr.node))
     helper = prog.functions["pyformlang.finite_automaton.finite_automaton.add_start_state_to_graph"]
-    pre_w = {c for c in consts(K(helper)) if c.endswith("_")}
-    pre_r = {c.args[0].value for c in ast.walk(K(pr)) if isinstance(c, ast.Call) and isinstance(c.func, ast.Attribute)
-             and c.func.attr == "startswith" and c.args and isinstance(c.args[0], ast.Constant)}
+    pre_w = {c for fn_ in code_nodes(prog, helper) for c in consts(fn_) if c.endswith("_") and len(c) > 1}
+    pre_r = {c.args[0].value for fn_ in code_nodes(prog, pr) for c in ast.walk(fn_) if isinstance(c, ast.Call)
+             and isinstance(c.func, ast.Attribute) and c.func.attr == "startswith" and c.args and isinstance(c.args[0], ast.Constant)}
     ob.decide("R7", "C20.1", pr, "pseudo-node-prefix-agrees", pre_r <= pre_w,
               "the prefix skipped by the reader is the prefix of the writer's pseudo-nodes",
               "PDA.from_networkx skips nodes starting with %s, the writer names pseudo-nodes %s" % (sorted(pre_r), sorted(pre_w)),
